@@ -130,6 +130,7 @@ type pathState struct {
 	atomics      int
 	locked       int
 	orderMode    int
+	orderGlobalOnly bool
 	sitePicked   bool
 	sched     *scheduler
 }
@@ -480,7 +481,11 @@ func (ps *pathState) mapIter(m *omap) iter {
 	idx := m.liveIndices()
 	if ps.mapOrder && len(idx) > 1 {
 		if ps.orderMode == 0 {
-			ps.orderMode = 1 + ps.choose(3)
+			if ps.orderGlobalOnly {
+				ps.orderMode = 2 + ps.choose(2) // canonical order is the reference run
+			} else {
+				ps.orderMode = 1 + ps.choose(3)
+			}
 		}
 		reverse := func() {
 			rev := make([]int, len(idx))
